@@ -3,8 +3,8 @@ HOOK_COMMITS = ["e648131", "c2c8839", "e6e5513", "64250c5", "03f0d10", "cd92619"
 NOT_YET = {}
 META = {
     "C27": {
-        "text": "Theorems over every interleaving of any number of callers with the kernel's completions (any order, any time, any result), by an inductive invariant: no completion is ever dropped (C27_no_completion_dropped); a caller that returns returns the errno translation of a value the kernel produced for the request carrying its own token (C27_own_result); negative completions become -1 with errno = -result (C27_errno); a completion touches only the slot registered under its own token (C27_completion_frame); the order the code had before the fix loses the completion taken between submit and register (C27_old_order_drops). Tie: the harness built with the io_uring feature runs real hooked write/read pairs and erroneous calls from task coroutines and plain threads through the real rings and checks every result. Known findings: several event loops; several threads submitting to one ring.",
-        "note": "Trusted: Lean kernel; hand-written routing model; io-uring crate and kernel; pause hook. Partial: the ring itself (SQ/CQ memory protocol, SQPOLL) is trusted, not modelled.",
+        "text": "Theorems over every interleaving of any number of callers with the kernel's completions (any order, any time, any result), by an inductive invariant: no completion is ever dropped (C27_no_completion_dropped); a caller that returns returns the errno translation of a value the kernel produced for the request carrying its own token (C27_own_result); negative completions become -1 with errno = -result (C27_errno); a completion touches only the slot registered under its own token (C27_completion_frame); the order the code had before the fix loses the completion taken between submit and register (C27_old_order_drops). The producer side of the submission queue (create view / write entry / publish tail): under the lock the kernel is handed exactly the pushed entries, in order, whatever threads push (C27_sq_locked_no_loss); without it two views overwrite each other (C27_sq_unlocked_loses). Tie: the harness built with the io_uring feature runs real hooked write/read pairs, TCP send/recv and erroneous calls from task coroutines (1-4 event loops, the coroutines migrate between the loop threads) and plain threads through the real rings and checks every result and errno.",
+        "note": "Trusted: Lean kernel; hand-written routing model; io-uring crate and kernel; pause hook. Partial: the kernel's side of the ring (consumption of the SQ, CQ, SQPOLL) is trusted, not modelled.",
         "design_ref": "DESIGN.md I.3 / §4 C27",
     },
     "C28": {
@@ -33,8 +33,8 @@ META = {
         "design_ref": "DESIGN.md §4 C06",
     },
     "C15": {
-        "text": "Theorems on the pool model, for every N, d, t0: N >= 1 tasks that each sleep d, submitted to a pool with room for N workers, are all started in the first scheduling pass - each on its own worker, in order - and every one is parked with the wake-up time t0 + d, nothing stays queued and the clock has not moved (C15_n_sleepers_one_d, by induction over the queue with the loop-iteration lemma; C15_sleeps_overlap is the general invariant form), and after the pass at t0 + d every one of the N tasks has published its own value and no worker is left (C15_n_sleepers_done); a blocking worker hands over to a fresh worker before control returns to the loop (C15_blocked_worker_hands_over); every worker whose time has come is woken in that same pass (C15_due_all_woken). Tie: a real, unstarted EventLoop driven turn by turn with a virtual clock, tasks blocking in the real hooked nanosleep; the finishing time of every task (rounds when N exceeds the pool size, 10 ms slices, computing tasks in between) is compared exactly with the model.",
-        "note": "Trusted: Lean kernel; hand-written pool model; the verif_loop hook; virtual clock. Partial: wall-clock behaviour of the running loop thread (jitter, epoll timeouts) is not in the model; tasks taken by another loop of the process are the C02 known finding.",
+        "text": "Theorems on the pool model, for every N, d, t0: N >= 1 tasks that each sleep d, submitted to a pool with room for N workers, are all started in the first scheduling pass - each on its own worker, in order - and every one is parked with the wake-up time t0 + d, nothing stays queued and the clock has not moved (C15_n_sleepers_one_d, by induction over the queue with the loop-iteration lemma; C15_sleeps_overlap is the general invariant form), and after the pass at t0 + d every one of the N tasks has published its own value and no worker is left (C15_n_sleepers_done); a blocking worker hands over to a fresh worker before control returns to the loop (C15_blocked_worker_hands_over); every worker whose time has come is woken in that same pass (C15_due_all_woken). Tie: a real, unstarted EventLoop driven turn by turn with a virtual clock, tasks blocking in the real hooked nanosleep; the finishing time of every task (rounds when N exceeds the pool size, 10 ms slices, computing tasks in between) is compared exactly with the model; `rtloop` runs a started loop on the wall clock with keep-alive 0-8 s and 0-2 core workers and judges lateness beyond 700 ms.",
+        "note": "Trusted: Lean kernel; hand-written pool model; the verif_loop hook; virtual clock. Partial: wall-clock behaviour of the running loop thread (jitter, epoll timeouts) is not in the model; pool configurations with keep-alive / core workers are exercised on the wall clock only.",
         "design_ref": "DESIGN.md I.3 / §4 C15",
     },
     "C16": {
@@ -48,7 +48,7 @@ META = {
         "design_ref": "DESIGN.md §4 C17",
     },
     "C18": {
-        "text": "Theorems: blocking mode restored on every path (C18_flag_restored), a caller-non-blocking descriptor is never waited on and gets -1/EAGAIN immediately (C18_nonblocking_never_waits, C18_nonblocking_immediate), for every script. Tie: real fcntl(F_GETFL) before/after each of 14 hooked calls in both modes, recorded waits.",
+        "text": "Theorems: blocking mode restored on every path (C18_flag_restored), a caller-non-blocking descriptor is never waited on and gets -1/EAGAIN immediately (C18_nonblocking_never_waits, C18_nonblocking_immediate), for every script; connect: never waits on a non-blocking descriptor, waits at most once and bounded, restores the mode whatever the outcome, including an asynchronous failure after the wait (C18_connect_*). Tie: real fcntl(F_GETFL) before/after each of 14 hooked calls and connect in both modes, recorded waits, receive calls with and without MSG_WAITALL, connect on a connected socket and on one whose attempt was refused.",
         "note": "Trusted: as C16. The 'hook applies process-wide' clause (dylib interposition) is not covered.",
         "design_ref": "DESIGN.md §4 C18",
     },
@@ -63,12 +63,12 @@ META = {
         "design_ref": "DESIGN.md §4 C14",
     },
     "C07": {
-        "text": "Invariant Wf (the listener log is a path of documented edges from Ready ending at the current state) proved to hold initially and across every resume, for every step program, resume sequence, clock and request-stack content; each guarded transition proved to report exactly one legal change or refuse without effect; terminal states absorbing. Tie: step programs interpreted by real coroutines with a recording listener (all callbacks), result/state/events/log diffed per resume; reported edges, chaining and terminal absorption also checked on the implementation's own event strings.",
+        "text": "Invariant Wf (the listener log is a path of documented edges from Ready ending at the current state) proved to hold initially and across every resume, for every step program, resume sequence, clock and request-stack content; each guarded transition proved to report exactly one legal change or refuse without effect; terminal states absorbing. Tie: step programs interpreted by real coroutines with a recording listener (all callbacks), result/state/events/log diffed per resume; reported edges, chaining and terminal absorption also checked on the implementation's own event strings. The specification on the reported changes knows the case's clock: Suspend -> Ready/Running is an edge only once the wake-up time has come.",
         "note": "Trusted: Lean kernel; coroutine model; corosensei context switching; the recording listener.",
         "design_ref": "DESIGN.md §4 C07",
     },
     "C08": {
-        "text": "Theorems: each resume parameter is delivered to the body exactly once and in order (or not at all when the body is not reached); the yielded / returned / panic value is what resume reports; completion reported once and then absorbing; panic contained (static and formatted messages) and resume never unwinds while the context is unfinished. Tie: as C07, payload values generated per case, catch_unwind around every resume.",
+        "text": "Theorems: each resume parameter is delivered to the body exactly once and in order (or not at all when the body is not reached); the yielded / returned / panic value is what resume reports; completion reported once and then absorbing; panic contained (static and formatted messages) and resume never unwinds while the context is unfinished. Tie: as C07, payload values generated per case, catch_unwind around every resume. The specification compares the reported yield (value and wake-up time) with the step the body executed.",
         "note": "Trusted: as C07; unwinding mechanics of catch_unwind.",
         "design_ref": "DESIGN.md §4 C08",
     },
@@ -78,7 +78,7 @@ META = {
         "design_ref": "DESIGN.md §4 C09",
     },
     "C25": {
-        "text": "Refinement of the per-coroutine storage to a map (put returns the previous value, get the latest, remove returns and deletes), privacy (no operation on one coroutine changes another's lookups) and a counting invariant proving every value ever stored is dropped exactly once (by the caller on overwrite/remove, or with its coroutine), for every operation history. Tie: histories over several real coroutines with drop-counting values; outputs and final per-value drop counts compared.",
+        "text": "Refinement of the per-coroutine storage to a map (put returns the previous value, get the latest, remove returns and deletes), privacy (no operation on one coroutine changes another's lookups) and a counting invariant proving every value ever stored is dropped exactly once (by the caller on overwrite/remove, or with its coroutine), for every operation history. Tie: histories over several real coroutines with drop-counting values; outputs and final per-value drop counts compared. Eight keys of different lengths and orders (one empty, one a prefix of another); every answer is compared with the abstract map as a specification, so a difference is a violation with that history, not only a disagreement.",
         "note": "Trusted: Lean kernel; model; DashMap; values read back with their stored type.",
         "design_ref": "DESIGN.md §4 C25",
     },
@@ -88,8 +88,8 @@ META = {
         "design_ref": "DESIGN.md §4 C26",
     },
     "C20": {
-        "text": "Theorems: the token handed to the OS and read back from the event is the 64-bit id itself (round-trip, injective; the pre-fix 32-bit fold refuted by a witness); a wait for read readiness leaves the descriptor registered with the waiter's own token in every case (new, upgrade from write, re-wait by another waiter) and the readiness event of that descriptor reports exactly that token, nothing for descriptors without read interest. Tie: real poller + socketpairs, tokens with high/low/colliding-fold bit patterns, kernel table read from fdinfo, readable events' tokens compared. Known finding: one epoll registration per descriptor means a read waiter and a write waiter with different tokens share one token.",
-        "note": "Trusted: Lean kernel; selector model; epoll semantics as modelled (cross-checked against fdinfo every op); the event-loop thread's resume path above the selector is not exercised. Partial: prompt wake-up latency is runtime.",
+        "text": "Theorems: the token handed to the OS and read back from the event is the 64-bit id itself (round-trip, injective; the pre-fix 32-bit fold refuted by a witness); a wait for read readiness leaves the descriptor registered with the waiter's own token in every case (new, upgrade from write, re-wait by another waiter) and the readiness event of that descriptor reports exactly that token, nothing for descriptors without read interest. Tie: real poller + socketpairs, tokens with high/low/colliding-fold bit patterns, kernel table read from fdinfo, readable and writable events' tokens compared; `rtwake`: on a started loop a coroutine in one long wait_read_event is resumed within 700 ms of its descriptor becoming readable, also next to a coroutine that uses up every slice and with pools that keep idle workers. Known finding: one epoll registration per descriptor means a read waiter and a write waiter with different tokens share one token.",
+        "note": "Trusted: Lean kernel; selector model; epoll semantics as modelled (cross-checked against fdinfo every op); the event-loop thread's resume path above the selector is exercised on the wall clock only (`rtwake`). Partial: prompt wake-up latency is runtime.",
         "design_ref": "DESIGN.md §4 C20",
     },
     "C21": {
@@ -113,32 +113,32 @@ META = {
         "design_ref": "DESIGN.md §4 C24",
     },
     "C10": {
-        "text": "Theorems from every scheduler state: check_ready never wakes an entry before its time (C10_not_early) and leaves no due entry waiting (C10_due_are_woken); a popped coroutine with a pending cancel is dropped without being resumed or reported (C10_cancelled_not_resumed); resuming or dropping one coroutine leaves every other coroutine untouched (C10_frame); a result is reported exactly when the coroutine finishes, with its own outcome, and a finished coroutine enters no queue again (C10_result_when_finished / C10_error_when_failed); delayed and yielding coroutines are parked in the right place (C10_park_delayed). Tie: a real Scheduler driven by generated submit/pass/advance/cancel/try_resume histories, per pass the resumed sequence and the result map compared; the Spec (exactly-once, own value, not early, woken when due, not after cancel, eventually reported) evaluated on the implementation's outputs.",
+        "text": "Theorems from every scheduler state: check_ready never wakes an entry before its time (C10_not_early) and leaves no due entry waiting (C10_due_are_woken); a popped coroutine with a pending cancel is dropped without being resumed or reported (C10_cancelled_not_resumed); resuming or dropping one coroutine leaves every other coroutine untouched (C10_frame); a result is reported exactly when the coroutine finishes, with its own outcome, and a finished coroutine enters no queue again (C10_result_when_finished / C10_error_when_failed); delayed and yielding coroutines are parked in the right place (C10_park_delayed). Tie: a real Scheduler driven by generated submit/pass/advance/cancel/try_resume histories, per pass the resumed sequence and the result map compared; the Spec (exactly-once, own value, not early, woken when due, not after cancel, eventually reported) evaluated on the implementation's outputs. Groups of coroutines parked until one common instant are generated too (the order among them is unspecified and compared as a set).",
         "note": "Trusted: Lean kernel; scheduler and coroutine models; virtual clock. The exactly-once claim across whole passes is stated per iteration (a finished coroutine is in no queue) rather than as a global placement invariant.",
         "design_ref": "DESIGN.md §4 C10",
     },
     "C11": {
-        "text": "Counting invariant (running size = number of workers that have not returned from their loop) proved initial and preserved by every pool operation (C11_exact_partial), growth bounded by the maximum size (C11_bounded), an idle worker with an empty queue leaves at once (C11_idle_worker_exits) and a stop with nothing left succeeds immediately (C11_stop_prompt). Partial: a worker dropped by a cancel while parked never returns, so the count stays up - recorded known finding. Tie: generated submit/pass/advance/cancel/wait/max/stop histories on a real pool, running size and state compared after every operation.",
+        "text": "Counting invariant (running size = number of workers that have not returned from their loop) proved initial and preserved by every pool operation (C11_exact_partial), growth bounded by the maximum size (C11_bounded), an idle worker with an empty queue leaves at once (C11_idle_worker_exits) and a stop with nothing left succeeds immediately (C11_stop_prompt). Several pools of one process: for every history of worker creations and exits, wherever each worker happens to run when it exits, every pool's count equals its own live workers (C11_multi_pool_exact), all zero once every worker has left (C11_multi_pool_quiescent), an idle worker leaves wherever it runs (C11_multi_idle_worker_leaves); the pre-fix rule refuted (C11_old_foreign_exit_counterexample, C11_old_idle_worker_spins). Partial: a worker dropped by a cancel while parked never returns, so the count stays up - recorded known finding. Tie: generated submit/pass/advance/cancel/wait/max/stop histories on a real pool, running size and state compared after every operation; `mpool`: 1-4 real pools with timed passes under the virtual clock so that started workers are resumed and finished by other pools, running sizes judged after every pass and at quiescence.",
         "note": "Trusted: Lean kernel; pool model (min_size 0, keep_alive 0, one thread); virtual clock. Known finding: [running-leak-after-parked-cancel].",
         "design_ref": "DESIGN.md §4 C11",
     },
     "C12": {
-        "text": "Theorems: no operation moves the pool state backwards and only stop changes it (C12_monotone); submissions after stopping began are rejected with the queue untouched (C12_reject_after_stop); stop reports success only with state Stopped, no live worker and an empty queue (C12_accepted_run_before_ok); a successful stop leaves no waiter registered (C12_waiters_settled); a wait begun on a stopped pool fails at once (C12_wait_after_stopped). Tie: as C11, plus the Spec on the implementation's outputs (state never goes back, nothing accepted after stop, stop ok only when done, no hang).",
+        "text": "Theorems: no operation moves the pool state backwards and only stop changes it (C12_monotone); submissions after stopping began are rejected with the queue untouched (C12_reject_after_stop); stop reports success only with state Stopped, no live worker and an empty queue (C12_accepted_run_before_ok); a successful stop leaves no waiter registered (C12_waiters_settled); a wait begun on a stopped pool fails at once (C12_wait_after_stopped). Tie: as C11, plus the Spec on the implementation's outputs (state never goes back, nothing accepted after stop, stop ok only when done, no hang). A task that submits to its own pool from inside its body is rejected like any other submitter once stopping has begun, also while stop drains it (C12_nested_submission_rejected/_accepted; pool histories with the task step N).",
         "note": "Trusted: as C11. stop is exercised with a zero time budget (virtual clock); EventLoop::stop / stop_sync are not covered.",
         "design_ref": "DESIGN.md §4 C12",
     },
     "C01": {
-        "text": "Theorems over every history of submissions to any loop, scheduling passes of any loop (local pop, steal, shared pop, overflow spill, the 61-tick rule) and cancel requests, any number of loops, any capacity: the submitted ids are exactly (as a multiset) ran ++ skipped ++ still-queued (C01_exactly_once), so nothing runs twice (C01_at_most_once) or disappears (C01_none_lost); only a requested cancel makes a pass skip a task (C01_skipped_only_if_cancelled, C01_taken_runs); a pass that finds nothing means nothing is queued anywhere (C01_no_stranding); passes of any single loop drain every queue (C01_drain); no call spins (C01_total). Proved by replaying the runtime's ghost history into the queue theorems of C03/C06. Tie: `rt` runs k real pools sharing the real process-wide queue and compares which tasks each pass executes, in order; `once` runs real loop threads against real submitter threads and checks every task ran exactly once.",
+        "text": "Theorems over every history of submissions to any loop, scheduling passes of any loop (local pop, steal, shared pop, overflow spill, the 61-tick rule) and cancel requests, any number of loops, any capacity: the submitted ids are exactly (as a multiset) ran ++ skipped ++ still-queued (C01_exactly_once), so nothing runs twice (C01_at_most_once) or disappears (C01_none_lost); only a requested cancel makes a pass skip a task (C01_skipped_only_if_cancelled, C01_taken_runs); a pass that finds nothing means nothing is queued anywhere (C01_no_stranding); passes of any single loop drain every queue (C01_drain); no call spins (C01_total). Proved by replaying the runtime's ghost history into the queue theorems of C03/C06. Tie: `rt` runs k real pools sharing the real process-wide queue and compares which tasks each pass executes, in order; `once` runs real loop threads against real submitter threads (tasks that return, yield, panic or block in a hooked sleep) and checks every task ran exactly once and finished; `qconc` (real threads on the task queue's type) attributes a stranded or duplicated item to this property too.",
         "note": "Trusted: Lean kernel; hand-written runtime + queue models; atomicity of individual queue calls (crossbeam/st3 and the pool's push/pop lock); harness. Partial: thread interleavings inside queue calls are exercised (once, qconc) but not proved.",
         "design_ref": "DESIGN.md §4 C01",
     },
     "C02": {
-        "text": "Theorems over every interleaving (inductive `Reach`, unbounded) of the waiter's take / register / re-check / block / final-take steps with the completer's insert / notify steps and the passing of the deadline: a returned value is the task's own outcome (C02_own_result), a finished task never leaves its waiter blocked (C02_no_lost_wakeup), a timeout needs an expired deadline and an untaken or not yet produced result (C02_timeout_only_if_unfinished); the pre-fix code loses the wake-up (C02_old_lost_wakeup, by evaluation). Tie: pause points in the real wait/complete code let the harness force all 15 merges plus the late-completion and the two-pool schedule on a real pool with real threads; outcome and promptness are compared with the model's run of the same schedule.",
+        "text": "Theorems over every interleaving (inductive `Reach`, unbounded) of the waiter's take / register / re-check / block / final-take steps with the completer's insert / notify steps and the passing of the deadline: a returned value is the task's own outcome (C02_own_result), a finished task never leaves its waiter blocked (C02_no_lost_wakeup), a timeout needs an expired deadline and an untaken or not yet produced result (C02_timeout_only_if_unfinished); the pre-fix code loses the wake-up (C02_old_lost_wakeup, by evaluation). Tie: pause points in the real wait/complete code let the harness force all 15 merges plus the late-completion and the two-pool schedule on a real pool with real threads, and the public JoinHandle of a real loop (finished / running task, patience 0-40 ms); outcome and promptness are compared with the model's run of the same schedule.",
         "note": "Trusted: Lean kernel; hand-written interleaving model (granularity = one DashMap or Mutex operation); pause hooks and gate controller; wall-clock promptness threshold. Partial: thread-level atomicity of DashMap/Condvar is assumed, not proved; multi-waiter and coroutine-waiter paths are not in this model.",
         "design_ref": "DESIGN.md §4 C02",
     },
     "C13": {
-        "text": "Theorems: a task cancelled while queued is skipped by the worker that takes it - nothing starts, an error result is stored and its waiter registration removed (C13_before_start); requesting a cancel changes nothing but the cancel sets (C13_cancel_frame); skipping changes only that task's result and waiter (C13_skip_frame). Tie: as C11; tasks log when their body starts. Known finding: cancelling a task that is suspended inside its worker leaves its waiter unsettled (and the worker count up).",
+        "text": "Theorems: a task cancelled while queued is skipped by the worker that takes it - nothing starts, an error result is stored and its waiter registration removed (C13_before_start); requesting a cancel changes nothing but the cancel sets (C13_cancel_frame); skipping changes only that task's result and waiter (C13_skip_frame). Tie: as C11; tasks log when their body starts; `co` (the coroutines that run the tasks): a cancel issued for one coroutine never ends another one. Known finding: cancelling a task that is suspended inside its worker leaves its waiter unsettled (and the worker count up).",
         "note": "Trusted: as C11. The running-task path (signal to the thread that is executing the coroutine, lookup/delivery race) is not exercised: partial.",
         "design_ref": "DESIGN.md §4 C13",
     },
